@@ -620,7 +620,13 @@ impl<'a> Machine<'a> {
         for (k, v) in bound.into_iter().enumerate() {
             cells[pr.params[k].var] = Cell::Scalar(v);
         }
+        let mut earlier_static_result: Option<Val> = None;
         if let Some(rv) = pr.result_var {
+            if pr.is_static {
+                if let Cell::Scalar(v) = &cells[rv] {
+                    earlier_static_result = Some(v.clone());
+                }
+            }
             cells[rv] = Cell::Scalar(default_val(&STy::B(pr.ret.unwrap()), prog));
         }
         if self.call_depth >= 1 {
@@ -673,6 +679,14 @@ impl<'a> Machine<'a> {
             Cell::Scalar(v) => v.clone(),
             _ => panic!("refsem: function result cell"),
         });
+        // "zero or empty string if none was assigned" and "variables of a STATIC subprogram keep their values" pull in
+        // different directions for a STATIC FUNCTION that assigns nothing in this activation: not determined
+        if let (Some(r), Some(prev)) = (&ret, &earlier_static_result) {
+            let dflt = default_val(&STy::B(pr.ret.unwrap()), prog);
+            if *r == dflt && *prev != dflt {
+                return undet("result of a STATIC FUNCTION in an activation that assigns none (or the default) after an earlier one assigned");
+            }
+        }
         Ok(ret)
     }
 
